@@ -164,6 +164,9 @@ impl tower::Service<Request<Bytes>> for Svc {
                 // a handler that does not yield (blocking / CPU-bound user code)
                 std::thread::sleep(std::time::Duration::from_millis(ms));
             }
+            if h.contains_key("x-panic") {
+                panic!("verif: the application's handler panics on this request");
+            }
             if h.contains_key("x-hang") {
                 futures::future::pending::<()>().await;
             }
